@@ -1035,6 +1035,7 @@ func (multi *MultiEpoch) processSlotTransactions(
 
 		// Flush after all processing is done
 		klog.V(2).Infof("Starting buffer flush with %d slots of transactions", len(buffer.items))
+		nothingFound := len(buffer.items) == 0 // (flush empties the buffer)
 		flushStartTime := time.Now()
 		if err := buffer.flush(ser); err != nil {
 			return err
@@ -1060,7 +1061,7 @@ func (multi *MultiEpoch) processSlotTransactions(
 		klog.V(3).Infof("Error check completed in %s", time.Since(errCheckStartTime))
 
 		// If we got here with no transactions (buffer is empty), send an empty response
-		if len(buffer.items) == 0 {
+		if nothingFound {
 			klog.V(2).Infof("No transactions found for the requested accounts, sending empty response")
 			emptyResp := &old_faithful_grpc.TransactionResponse{
 				Slot: startSlot,
